@@ -87,7 +87,7 @@ class SymExec:
                 return {"c": v[1]}
             if v == S("len"):
                 return {"len": 1}
-            return None
+            return getattr(self, "lindefs", {}).get(e.id)
         if isinstance(e, ast.BinOp):
             if isinstance(e.op, ast.Add):
                 a, b = self.lin(e.left), self.lin(e.right)
@@ -110,6 +110,9 @@ class SymExec:
                     # 4 * (length // 4) is the byte offset of the tail
                     out["tail"] = out.get("tail", 0) + out.pop("n4") // 4
                 return out
+            if isinstance(e.op, (ast.Mod, ast.BitAnd)) and unparse(e) in (f"{self.len_name or 'length'} % 4", f"{self.len_name or 'length'} & 3"):
+                # length % 4 = length - tail offset
+                return {"len": 1, "tail": -1}
             if isinstance(e.op, ast.BitAnd):
                 # length & ~3  : byte offset of the tail (= 4 * (length // 4))
                 l, r = unparse(e.left), unparse(e.right)
@@ -238,6 +241,12 @@ class SymExec:
                     self.env[n] = l
                 else:
                     self.env[n] = self.ev(s.value)
+                    if not hasattr(self, "lindefs"):
+                        self.lindefs = {}
+                    if l is not None:
+                        self.lindefs[n] = l
+                    else:
+                        self.lindefs.pop(n, None)
             elif isinstance(s, ast.AugAssign) and isinstance(s.target, ast.Name):
                 cur = self.ev(ast.Name(id=s.target.id, ctx=ast.Load()))
                 rhs = self.ev(s.value)
@@ -392,20 +401,54 @@ def rule_murmur(ctx):
             st, sp, step = se.lin(it.args[0]), se.lin(it.args[1]), se.lin(it.args[2])
             ok_iter = st == {"c": 0} and step == {"c": 4} and sp is not None and {k: v for k, v in sp.items() if v} == {"tail": 1}
             loopvar = {"i": 4}
-    ctx.ob(R, fi, loop, ok_iter, f"block loop `for {unparse(loop.target)} in {unparse(it)}` does not visit the length // 4 whole blocks", text="block-count")
+    word_loop = None
+    if isinstance(it, ast.Call) and call_attr(it) == "iter_unpack" and isinstance(loop.target, (ast.Tuple, ast.List)) and len(loop.target.elts) == 1 \
+            and isinstance(loop.target.elts[0], ast.Name):
+        # for (k,) in struct.Struct("<I").iter_unpack(data[:U]) : k is the little-endian word of the block; U must be the tail offset
+        fmt = None
+        recv = it.func.value
+        if isinstance(recv, ast.Name) and recv.id == "struct" and it.args and isinstance(it.args[0], ast.Constant):
+            fmt, bufe = it.args[0].value, (it.args[1] if len(it.args) > 1 else None)
+        else:
+            bufe = it.args[0] if it.args else None
+            for st_ in fi.module.tree.body:
+                if isinstance(st_, ast.Assign) and unparse(st_.targets[0]) == unparse(recv) and isinstance(st_.value, ast.Call) \
+                        and unparse(st_.value.func) in ("struct.Struct", "Struct") and st_.value.args and isinstance(st_.value.args[0], ast.Constant):
+                    fmt = st_.value.args[0].value
+        inner = bufe
+        if isinstance(inner, ast.Subscript) and isinstance(inner.slice, ast.Slice):
+            base = inner.value
+            if isinstance(base, ast.Call) and unparse(base.func) in ("memoryview", "bytes") and base.args:
+                base = base.args[0]
+            up = se.lin(inner.slice.upper) if inner.slice.upper is not None else None
+            lo_ok = inner.slice.lower is None or se.lin(inner.slice.lower) == {"c": 0}
+            ok_iter = fmt == "<I" and unparse(base) == p and lo_ok and up is not None and {k_: v_ for k_, v_ in up.items() if v_} == {"tail": 1} and inner.slice.step is None
+        else:
+            ok_iter = False
+        word_loop = loop.target.elts[0].id
+    ctx.ob(R, fi, loop, ok_iter, f"block loop `for {unparse(loop.target)} in {unparse(it)[:70]}` does not visit exactly the length // 4 whole blocks "
+                                 "(a negative slice bound such as [:-(length % 4)] is EMPTY when the length is a multiple of 4)", text="block-count")
     # phase B: one iteration
     envB = dict(se.env)
     envB[hname] = S("h")
-    envB[loop.target.id] = loopvar or {"i": 1}
+    if word_loop is not None:
+        envB[word_loop] = mk("add", mk("add", mk("add", byte("blk", 0), ("shl", byte("blk", 1), C(8))), ("shl", byte("blk", 2), C(16))), ("shl", byte("blk", 3), C(24)))
+    elif isinstance(loop.target, ast.Name):
+        envB[loop.target.id] = loopvar or {"i": 1}
+    else:
+        raise AnalysisError(f"murmur2: block loop target `{unparse(loop.target)}` not understood")
     sb = SymExec(envB, len_name=ln)
     sb.run(loop.body)
     got_loop = _canon(sb.env[hname])
     ctx.ob(R, fi, loop, got_loop == _canon(ref_loop), "one block iteration differs from Java's `k*=m; k^=k>>>24; k*=m; h*=m; h^=k` over the little-endian block", text="block")
     # phase C: tail + finaliser for each length % 4
     for e in range(4):
-        envC = dict(se.env)
-        envC[hname] = S("h")
-        sc = SymExec(envC, tail_len=e, len_name=ln)
+        # the straight-line prologue is pure: re-evaluate it knowing length % 4 == e (a hoisted `extra = length % 4` is a constant here)
+        sc = SymExec({p: S("data"), ln: S("len")}, tail_len=e, len_name=ln)
+        for s_ in cnt:
+            sc.env[s_.targets[0].id] = {"n4": 1}
+        sc.run([s_ for s_ in preA if s_ not in cnt])
+        sc.env[hname] = S("h")
         sc.run(post)
         ctx.anchor(sc.ret is not None, "murmur2 returns")
         ok = _canon(sc.ret) == _canon(ref_fin[e])
